@@ -253,6 +253,17 @@ def rule_wrapper(ctx, repo):
         for x in ast.walk(s):
             if isinstance(x, ast.Subscript) and not isinstance(x.slice, ast.Slice) and any(isinstance(y, ast.Name) and y.id == fi.params[2] for y in ast.walk(x.slice)):
                 np_ += 1
+                from ..escape import implied_at as _imp
+                try:
+                    g_ = _imp(repo, fi, x, '%s < len(%s)' % (norm(x.slice), norm(x.value))) if isinstance(x.slice, ast.Name) else None
+                except Exception:
+                    g_ = None
+                if g_ is True:
+                    r.ok('prefix:%s' % norm(x), common.site_of(fi, x), 'index guarded from above')
+                    continue
+                if g_ is None and any(norm(x.value) in norm(t_) for t_, _p in __import__('pblint.escape', fromlist=['path_condition']).path_condition(x)):
+                    r.undecided('prefix:%s' % norm(x), common.site_of(fi, x), 'whether `%s` is guarded is not decided' % norm(x))
+                    continue
                 r.violated('prefix:%s' % norm(x), common.site_of(fi, x),
                            'SignatureHash evaluates `%s` before handing over to RawSignatureHash: an input index that does not exist raises IndexError here, where the raw form '
                            'reports the error that becomes ValueError' % norm(x), sure=True)
